@@ -8,7 +8,8 @@ Import ListNotations.
 From TP Require Import Base.PyVal Fields.FieldAst Fields.SetChain Fields.Doc Fields.Domain
   Struct.Shapes Struct.Instance Struct.Entry Struct.InstanceProofs Struct.NestedProofs
   Struct.EntrySites Struct.EntrySitesProofs Gen.EntrySites Struct.EntrySitesToday
-  Base.PyOps Base.PyOpsEnum Gen.GuardsEnum Fields.EnumGuardProofs.
+  Base.PyOps Base.PyOpsEnum Gen.GuardsEnum Fields.EnumGuardProofs
+  Ser.Json Ser.Serialize Ser.Deserialize Ser.DeserEntry Ser.DeserEntryProofs Ser.DeserDeepProofs.
 Local Open Scope string_scope.
 
 (* Where the line between theorem and correspondence is:
@@ -122,6 +123,61 @@ Proof. exact sites_characterisation. Qed.
 Theorem C01_entry_sites_today : sites_ok entry_sites default_unpickle = true.
 Proof. exact entry_sites_today. Qed.
 
+(* ------------------------------------------------------------------ deserialization with its real pre-processing
+   [EDeser cls kw] above is parametric in the keyword arguments.  Ser/Deserialize.v models what
+   deserialize_structure_internal computes from a document (field by field, nested structures,
+   collections, multi-field wrappers, Enum.deserialize, keep_undefined, compact form) and ends in the
+   constructor; Ser/DeserEntry.v exposes the keyword arguments it reaches the constructor with. *)
+Section C01_deser.
+  Variable re_match : N -> pystr -> bool.
+  Variable e : env.
+  Variable ens : enums.
+  Variable fl : dflags.
+
+  (* deserializing ANY document is the entry point EDeser on the computed keyword arguments *)
+  Theorem C01_deser_as_entry : forall n ku cn j x cur,
+      deser_struct re_match e ens fl (S n) ku cn j = Ok x ->
+      exists c kw, deser_plan re_match e ens fl n ku cn j = Ok (c, kw) /\
+                   run_entry re_match e cur (EDeser cn kw) = Ok x.
+  Proof. exact (deser_as_entry re_match e ens fl). Qed.
+
+  (* deserialize_structure(cls, document, keep_undefined=ku): an instance that comes out is valid *)
+  Theorem C01_deser_sound : forall n ku cn j x,
+      deser_dom re_match e ens fl n ku cn j = true ->
+      deser_struct re_match e ens fl (S n) ku cn j = Ok x -> inst_ok re_match e x = true.
+  Proof. exact (deser_sound re_match e ens fl). Qed.
+
+  (* Deserializer(cls).deserialize(document, keep_undefined=ku) *)
+  Theorem C01_deserialize_sound : forall n ku cn c j x,
+      find_class e cn = Some c ->
+      deser_dom re_match e ens fl n (adjust_keep_undefined c ku) cn j = true ->
+      deserialize re_match e ens fl (S n) ku cn j = Ok x -> inst_ok re_match e x = true.
+  Proof. exact (deserialize_sound re_match e ens fl). Qed.
+
+  (* ... followed by any chain of validating entry points *)
+  Theorem C01_deser_then_chain_sound : forall n ku cn j x0 ch x,
+      deser_dom re_match e ens fl n ku cn j = true ->
+      deser_struct re_match e ens fl (S n) ku cn j = Ok x0 ->
+      chain_dom re_match e x0 ch = true ->
+      run_chain re_match e x0 ch = Ok x -> inst_ok re_match e x = true.
+  Proof. exact (deser_then_chain_sound re_match e ens fl). Qed.
+
+  (* Nested instances.  [deser_checked] is deser_struct with the statement's domain checked at EVERY
+     constructor call, those for nested objects included (outside it, it declines).  Whenever it returns,
+     (1) the model of typedpy's deserializer returns the same instance - deserialize_single_field is
+     monotone in the function it uses for nested classes (structural induction over its code) - and
+     (2) that instance is valid for its class and so is every Structure instance nested anywhere inside it,
+     whether the deserializer created it for a nested object or it was supplied in the document. *)
+  Theorem C01_deser_checked_agrees : forall n ku cn j x,
+      deser_checked re_match e ens fl n ku cn j = Ok x -> deser_struct re_match e ens fl n ku cn j = Ok x.
+  Proof. exact (deser_checked_agrees re_match e ens fl). Qed.
+
+  Theorem C01_deser_deep_sound : env_defaults_deep re_match e = true -> forall n ku cn j x,
+      deser_checked re_match e ens fl n ku cn j = Ok x -> deep_valid re_match e j = true ->
+      deser_struct re_match e ens fl n ku cn j = Ok x /\ deep_valid re_match e x = true.
+  Proof. exact (deser_deep_sound re_match e ens fl). Qed.
+End C01_deser.
+
 (* ------------------------------------------------------------------ tie of the Enum chain to the source
    Enum._validate and Enum.__set__ (typedpy/fields/enum.py) are translated to Gallina on every run
    (Gen/GuardsEnum.v).  For every enum class (all members [allm]), every declared subset [members] of
@@ -160,6 +216,12 @@ Print Assumptions C01_entry_sites_sound.
 Print Assumptions C01_chain_sites_sound.
 Print Assumptions C01_sites_characterisation.
 Print Assumptions C01_entry_sites_today.
+Print Assumptions C01_deser_as_entry.
+Print Assumptions C01_deser_sound.
+Print Assumptions C01_deserialize_sound.
+Print Assumptions C01_deser_then_chain_sound.
+Print Assumptions C01_deser_checked_agrees.
+Print Assumptions C01_deser_deep_sound.
 Print Assumptions C01_src_Enum_cls_set.
 Print Assumptions C01_src_Enum_lit_set.
 
@@ -259,3 +321,26 @@ Proof.
     destruct (pystr_eqb (s2p "GREEN") n); [exact H| discriminate H].
   - repeat split; vm_compute; reflexivity.
 Qed.
+
+(* deserialization: a nested document is in the domain, runs to a valid instance (the set given as a JSON
+   list, the nested Point as a JSON object), and an ill-typed document is rejected *)
+Definition ex_flags : dflags := {| df_ignore_invalid := false; df_compact := true |}.
+Definition ex_doc : pyval :=
+  PDict [(PStr (s2p "p"), PDict [(PStr (s2p "x"), PNum (NInt 3)); (PStr (s2p "tags"), PList [PStr (s2p "a")])])].
+
+Example C01_deser_nonvacuous :
+  deser_dom (fun _ _ => true) ex_env [] ex_flags 3 true (s2p "Holder") ex_doc = true /\
+  deser_struct (fun _ _ => true) ex_env [] ex_flags 4 true (s2p "Holder") ex_doc =
+    Ok (PStruct (s2p "Holder")
+          [(s2p "p", PStruct (s2p "Point")
+                       [(s2p "y", PNum (NFlt 1 1)); (s2p "x", PNum (NInt 3)); (s2p "tags", PSet true [PStr (s2p "a")])])]) /\
+  deser_struct (fun _ _ => true) ex_env [] ex_flags 4 true (s2p "Point")
+               (PDict [(PStr (s2p "x"), PStr (s2p "3"))]) = Raise TypeError /\
+  (* the domain-checked deserializer returns on the nested document (so C01_deser_deep_sound applies to it),
+     and declines a document that puts a bool where a number is declared (outside the statement's domain) *)
+  deser_checked (fun _ _ => true) ex_env [] ex_flags 4 true (s2p "Holder") ex_doc =
+    deser_struct (fun _ _ => true) ex_env [] ex_flags 4 true (s2p "Holder") ex_doc /\
+  deep_valid (fun _ _ => true) ex_env ex_doc = true /\
+  deser_checked (fun _ _ => true) ex_env [] ex_flags 4 true (s2p "Point")
+                (PDict [(PStr (s2p "x"), PBool true)]) = Raise Unmodelled.
+Proof. repeat split; vm_compute; reflexivity. Qed.
